@@ -164,12 +164,24 @@ func checkInputUnmodified(r *Run, prog *Program, pfx string) {
 		n++
 		ok := in != nil && ctorPart(prog, np, fa.Fn)
 		if ok {
-			v := prog.originOfParam(fa.Val, 0)
-			root := v
-			if fa.Fn == np {
-				root = fa.Val
+			// the value stored, followed from a part of the constructor up to the constructor's own parameter
+			v := fa.Val
+			ok = false
+			for depth := 0; depth < 4; depth++ {
+				if v == ssa.Value(in) {
+					ok = true
+					break
+				}
+				par, isP := v.(*ssa.Parameter)
+				if !isP || par.Parent() == np {
+					break
+				}
+				next := prog.originOfParam(v, 4)
+				if next == v {
+					break
+				}
+				v = next
 			}
-			ok = root == ssa.Value(in) || v == ssa.Value(in)
 		}
 		r.Check(pfx+".engine", "input-unmodified:"+fa.Fn.Name(), prog.pos(fa.Instr.Pos()), ok, "the parser's input (field data) is not the byte slice given to the constructor as it is: bytes are dropped or changed before the grammar sees them")
 	}
